@@ -33,6 +33,9 @@ class SymEnv:
     def int(self, name: str, lo: int | None = None, hi: int | None = None) -> Any:
         return self.ex.int(name, lo, hi)
 
+    def bool(self, name: str) -> Any:
+        return self.ex.bool(name)
+
     def text(self, s: str, min_len: dict[str, int] | None = None) -> str:
         ml = {t: 2 for t in S.sentence_tokens(s)}
         ml.update(min_len or {})
@@ -66,6 +69,11 @@ class ConcEnv:
         if name not in self.model:
             raise KeyError(f"model has no value for {name}")
         return self.model[name]
+
+    def bool(self, name: str) -> bool:
+        if name not in self.model:
+            raise KeyError(f"model has no value for {name}")
+        return bool(self.model[name])
 
     def text(self, s: str, min_len: dict[str, int] | None = None) -> str:
         return S.instantiate(s, self.model)
